@@ -786,9 +786,12 @@ impl AllAuth {
                     return None;
                 }
                 let v = rng.pick(&regs);
+                // the caller names either the registered vault or ITSELF as the source vault (the
+                // asset always has a registered vault): both halves of the guard are needed
+                let named = if rng.chance(1, 2) { attacker.to_string() } else { v.addr.clone() };
                 plain(jv(&vault_router::ExecuteMsg::NextLoan {
                     initiator: cosmwasm_std::Addr::unchecked(attacker),
-                    source_vault: v.addr.clone(),
+                    source_vault: named,
                     source_vault_asset_info: v.asset.clone(),
                     payload: vec![],
                     to_loan: vec![],
